@@ -56,11 +56,14 @@ def build_exe(stage):
     if "c41" in built:
         return built["c41"]
     objs = [stage.compile(os.path.join(VERIF, "harness", "c41.cc"), extra=["-fno-access-control"]),
-            stage.compile("src/acl/DomainData.cc"), stage.compile("src/anyp/Uri.cc")]
+            stage.compile("src/acl/DomainData.cc"), stage.compile("src/anyp/Uri.cc"),
+            stage.compile("lib/util.cc"), stage.compile("lib/Splay.cc")]
     exe = stage.link_like("tests/testACLMaxUserIP", objs, os.path.join(stage.work, "c41"),
                           drop=["tests/stub_cache_cf.o", "tests/stub_debug.o"],
                           extra=["acl/.libs/libacls.a", "acl/.libs/libapi.a", "acl/.libs/libstate.a", "tests/stub_ACLFilledChecklist.o",
-                                 "anyp/.libs/libanyp.a", "sbuf/.libs/libsbuf.a", "base/.libs/libbase.a"])
+                                 "anyp/.libs/libanyp.a", "sbuf/.libs/libsbuf.a", "base/.libs/libbase.a",
+                                 "../lib/.libs/libmisccontainers.a", "../lib/.libs/libmiscencoding.a", "../lib/.libs/libmiscutil.a",
+                                 "../compat/.libs/libcompatsquid.a"])
     built["c41"] = exe
     return exe
 
